@@ -278,42 +278,83 @@ class WorkerPool:
     def __init__(self, ctx, binary, n=None, args=None, env_extra=None):
         self.ctx = ctx
         self.n = n or NCPU
-        self.procs = []
-        self.pending = []
-        self.sent = 0
-        env = dict(os.environ)
+        self.binary = binary
+        self.args = args or []
+        self.deaths = 0
+        self.env = dict(os.environ)
         if env_extra:
-            env.update(env_extra)
-        for i in range(self.n):
-            wd = ctx.sub("w%d-%s" % (i, os.path.basename(binary)))
-            errf = open(os.path.join(wd, "stderr.log"), "w")
-            p = subprocess.Popen([binary] + (args or []), cwd=wd, stdin=subprocess.PIPE, stdout=subprocess.PIPE,
-                                 stderr=errf, env=env, text=True, bufsize=1 << 20)
-            self.procs.append(p)
-            self.pending.append(0)
+            self.env.update(env_extra)
+        self.procs = [self._spawn(i) for i in range(self.n)]
+
+    def _spawn(self, i):
+        wd = self.ctx.sub("w%d-%s" % (i, os.path.basename(self.binary)))
+        errf = open(os.path.join(wd, "stderr.log"), "a")
+        return subprocess.Popen([self.binary] + self.args, cwd=wd, stdin=subprocess.PIPE, stdout=subprocess.PIPE,
+                                stderr=errf, env=self.env, text=True, bufsize=1 << 20)
+
+    def _stderr_tail(self, i, n=6):
+        f = os.path.join(self.ctx.scratch, "w%d-%s" % (i, os.path.basename(self.binary)), "stderr.log")
+        try:
+            lines = open(f, errors="replace").read().strip().splitlines()
+            head = [l for l in lines if l.startswith("fatal error") or l.startswith("panic:") or l.startswith("runtime:")][-3:]
+            return " | ".join(head + lines[-n:][:2])[:600]
+        except Exception:
+            return ""
 
     def run_all(self, requests, on_result, chunk=64):
-        """Feed all requests (iterable of dict) and call on_result(req, res)."""
+        """Feed all requests (iterable of dict) and call on_result(req, res).
+        A worker that dies while executing a request (a fatal error inside the code under test, e.g.
+        a stack overflow, cannot be recovered in-process) yields the synthetic result
+        {"ok": False, "fatal": True, "viol": [...]} for that request; the worker is restarted."""
         import threading
         import queue
-        q = queue.Queue(maxsize=self.n * chunk * 4)
+        q = queue.Queue(maxsize=self.n * 8)
         errors = []
+        lock = threading.Lock()
 
         def worker(i):
-            p = self.procs[i]
             while True:
                 batch = q.get()
                 if batch is None:
                     return
                 try:
-                    for r in batch:
-                        p.stdin.write(json.dumps(r) + "\n")
-                    p.stdin.flush()
-                    for r in batch:
-                        line = p.stdout.readline()
-                        if not line:
-                            raise Undecided("harness worker %d died (see %s)" % (i, os.path.join(self.ctx.scratch, "w%d-*" % i)))
-                        on_result(r, json.loads(line))
+                    todo = list(batch)
+                    deaths = 0
+                    while todo:
+                        p = self.procs[i]
+                        try:
+                            for r in todo:
+                                p.stdin.write(json.dumps(r) + "\n")
+                            p.stdin.flush()
+                        except (BrokenPipeError, OSError):
+                            pass
+                        done = 0
+                        died = False
+                        for r in todo:
+                            line = p.stdout.readline()
+                            if not line:
+                                died = True
+                                break
+                            with lock:
+                                on_result(r, json.loads(line))
+                            done += 1
+                        if not died:
+                            break
+                        deaths += 1
+                        self.deaths += 1
+                        if self.deaths > 20000:
+                            raise Undecided("harness workers keep dying: %s" % self._stderr_tail(i))
+                        try:
+                            p.kill()
+                            p.wait(timeout=10)
+                        except Exception:
+                            pass
+                        culprit = todo[done]
+                        with lock:
+                            on_result(culprit, {"ok": False, "fatal": True, "step": -1,
+                                                "viol": ["the process died with a fatal runtime error while executing this scenario: " + self._stderr_tail(i)]})
+                        todo = todo[done + 1:]
+                        self.procs[i] = self._spawn(i)
                 except Exception as e:  # noqa
                     errors.append(e)
                     return
@@ -321,33 +362,31 @@ class WorkerPool:
         ths = [threading.Thread(target=worker, args=(i,), daemon=True) for i in range(self.n)]
         for t in ths:
             t.start()
+
+        def put(item):
+            while True:
+                if errors and all(not t.is_alive() for t in ths):
+                    return False
+                try:
+                    q.put(item, timeout=0.5)
+                    return True
+                except queue.Full:
+                    if errors:
+                        return False
+
         batch = []
         for r in requests:
             batch.append(r)
             if len(batch) >= chunk:
-                while True:
-                    if errors:
-                        break
-                    try:
-                        q.put(batch, timeout=1)
-                        break
-                    except queue.Full:
-                        continue
-                batch = []
-            if errors:
-                break
-        if batch and not errors:
-            q.put(batch)
-        for _ in ths:
-            while True:
-                try:
-                    q.put(None, timeout=1)
+                if not put(batch):
                     break
-                except queue.Full:
-                    if errors and all(not t.is_alive() for t in ths):
-                        break
+                batch = []
+        if batch and not errors:
+            put(batch)
+        for _ in ths:
+            put(None)
         for t in ths:
-            t.join(timeout=3600)
+            t.join(timeout=7200)
         if errors:
             raise errors[0] if isinstance(errors[0], Undecided) else Undecided("harness failure: %r" % (errors[0],))
 
